@@ -19,6 +19,6 @@ META = dict(
          "Save writes the list and Load installs storage's list merged with the configured hashes. For every state reached by submissions from genesis (C17_marked_excluded, C17_best_chain_excludes): after a successful mark of a held header the chain of NO "
          "tracked branch - in particular the reported best chain - passes through the marked header (hence nothing built on it is reported either: Branches.Trim drops exactly the "
          "branches hanging, directly or through other branches, off the trimmed part - fold specification trimFold_spec), and the reported tip is a tracked branch of maximal "
-         "accumulated work among the remaining ones. With Clean/Save/Load before the mark the same is checked on the implementation by the monitor at every dump. From the repository Load builds out of any consistent storage image, after any forest history of submissions (automatic cleans included), Cleans/Saves with no reorganisation pending, marks and unmarks, the tracked forest stays well linked and the tip is a branch of maximal work among those that remain (C17_fallback_after_load). With no hash twice in the indexed files (StoreUniq, executable test proved sound and evaluated on every loaded image) the exclusion itself holds from any loaded state: after a successful mark the chain of no tracked branch passes through the marked header (C17_marked_excluded_after_load, identities IdOK preserved by submissions, Clean, Trim).",
+         "accumulated work among the remaining ones. With Clean/Save/Load before the mark the same is checked on the implementation by the monitor at every dump. From the repository Load builds out of any consistent storage image, after any forest history of submissions (automatic cleans included), Cleans/Saves with no reorganisation pending, marks and unmarks, the tracked forest stays well linked and the tip is a branch of maximal work among those that remain (C17_fallback_after_load). With no hash twice in the indexed files (StoreUniq, executable test proved sound and evaluated on every loaded image) the exclusion itself holds from any loaded state: after a successful mark the chain of no tracked branch passes through the marked header (C17_marked_excluded_after_load, identities IdOK preserved by submissions, Clean, Trim), whether or not the hash was already in the list (configured hashes, exercised with the cfginv op; the stored list is observed after every mark / unmark).",
     note=COMMON_NOTE + "Known finding: marks at or below the in-memory window (prune depth) are ineffective by design of the repository; see known_findings.txt.",
 )
